@@ -432,7 +432,7 @@ func (cfg *Config) fieldJoin(parts []fieldPart) string {
 func (cfg *Config) escapedGlobField(parts []fieldPart) (escaped string, glob bool) {
 	candidate := false
 	for _, part := range parts {
-		if part.quote == quoteNone && strings.ContainsAny(part.val, "*?[") {
+		if part.quote == quoteNone && (strings.ContainsAny(part.val, "*?[") || cfg.hasExtGlobMeta(part.val)) {
 			candidate = true
 			break
 		}
@@ -443,7 +443,12 @@ func (cfg *Config) escapedGlobField(parts []fieldPart) (escaped string, glob boo
 	sb := cfg.strBuilder()
 	for _, part := range parts {
 		if part.quote > quoteNone {
-			sb.WriteString(pattern.QuoteMeta(part.val, 0))
+			quoted := pattern.QuoteMeta(part.val, 0)
+			if cfg.ExtGlob && strings.ContainsAny(quoted, "(|)") {
+				// [pattern.QuoteMeta] does not know about extended operators.
+				quoted = extGlobQuoter.Replace(quoted)
+			}
+			sb.WriteString(quoted)
 		} else {
 			sb.WriteString(part.val)
 		}
@@ -451,10 +456,31 @@ func (cfg *Config) escapedGlobField(parts []fieldPart) (escaped string, glob boo
 	// Check the entire escaped word, as a bracket expression could span
 	// multiple unquoted parts, such as `[a$x` where x holds "]".
 	escaped = sb.String()
-	if pattern.HasMeta(escaped, 0) {
+	if pattern.HasMeta(escaped, 0) || cfg.hasExtGlobMeta(escaped) {
 		return escaped, true
 	}
 	return "", false
+}
+
+var extGlobQuoter = strings.NewReplacer(`(`, `\(`, `|`, `\|`, `)`, `\)`)
+
+// hasExtGlobMeta reports whether s holds an unescaped extended globbing
+// operator such as "+(", which [pattern.HasMeta] does not look for.
+func (cfg *Config) hasExtGlobMeta(s string) bool {
+	if !cfg.ExtGlob {
+		return false
+	}
+	for i := 0; i+1 < len(s); i++ {
+		switch s[i] {
+		case '\\':
+			i++
+		case '?', '*', '+', '@', '!':
+			if s[i+1] == '(' {
+				return true
+			}
+		}
+	}
+	return false
 }
 
 // Fields is a pre-iterators API which now wraps [FieldsSeq].
@@ -1113,7 +1139,7 @@ func (cfg *Config) glob(base, pat string) ([]string, error) {
 				matches[i] = pathJoin2(dir, part)
 			}
 			continue
-		case !pattern.HasMeta(part, 0):
+		case !pattern.HasMeta(part, 0) && !cfg.hasExtGlobMeta(part):
 			var newMatches []string
 			for _, dir := range matches {
 				match := dir
